@@ -25,6 +25,11 @@ fn inside(p: SInt, b: &Band) -> Cond {
 /// OpenPosition under a symbolic limit. `pattern`: 0 = first trade of the block, 1 = after another
 /// trader moved the price inside the band in the same block, 2 = opposite-side open (reduce/reverse)
 fn open_in_band(side: Side, pattern: u8, seed: u64) -> impl Fn() {
+    open_in_band_t(side, pattern, seed, false)
+}
+
+/// `subsecond`: the block under test starts 100 ms after the previous one (same second)
+fn open_in_band_t(side: Side, pattern: u8, seed: u64, subsecond: bool) -> impl Fn() {
     move || {
         let cfg = Cfg::base(false, 9);
         let d = cfg.d();
@@ -41,7 +46,11 @@ fn open_in_band(side: Side, pattern: u8, seed: u64) -> impl Fn() {
         // a trade in the previous block so that a reference snapshot exists
         assert!(r.step(Op::Open { who: BOB, side: Side::Buy, margin: Uint128::new(d), lev: Uint128::new(d), limit: Uint128::zero(), funds: None }).tx.ok || true);
         let last = r.w.spot_price(0).unwrap();
-        r.w.next_block(15);
+        if subsecond {
+            r.w.next_block_ns(0, 100_000_000);
+        } else {
+            r.w.next_block(15);
+        }
         if pattern == 1 {
             // drift inside the band within the block (may be rejected on some paths: fine)
             let md = amount("drift", d, false, 5);
@@ -191,6 +200,7 @@ pub fn scenarios(seed: u64) -> Vec<Scenario> {
             let tier = if p == 1 { Tier::Thorough } else { Tier::Quick };
             v.push(sc("C15", tier, &format!("c15.open.{}.{}", pn, sn), d1, 500, 150, open_in_band(side.clone(), p, seed)));
         }
+        v.push(sc("C15", Tier::Quick, &format!("c15.open.afterdrift.subsecond.{}", sn), "as c15.open.afterdrift with the block starting 100 ms after the previous one (same second)", 500, 150, open_in_band_t(side.clone(), 1, seed, true)));
         for (aside, an) in [(Side::Buy, "buy"), (Side::Sell, "sell")] {
             v.push(sc("C15", Tier::Quick, &format!("c15.open.after-close-left-band.{}.{}", sn, an), "a whole close of a seeded position under a symbolic limit leaves the band; a later open in the same block (symbolic size, either side) must be rejected", 400, 120, open_after_close_left_band(side.clone(), aside, seed)));
         }
